@@ -1,5 +1,5 @@
 """C04 on the whole-program machine: theorems in coq/props/C04.v, whole-trace correspondence, monitor(s) ['C04']"""
-from harness import machine_prop
+from harness import machine_prop, scopecorr
 from harness.props._machine_common import TRUSTED, ASSUMPTIONS, RULE  # noqa
 
 ID = 'C04'
@@ -174,17 +174,24 @@ def run(ctx):
     machine_prop.run(ctx, FAMILIES, MONITORS, extra_scenarios=teardown_races(ctx.rng, ctx.n(40, 800)))
     # a block that is waiting for its children ends as the text says (normally): what it raises is C05's rule
     machine_prop.run(ctx, [], MONITORS + [machine_prop.unclassified('C05')], extra_scenarios=graceful_waits(ctx.rng, ctx.n(30, 500)))
+    # protocol layer: label sequences extracted from the real Scope / until, replayed through ScopeProto.v
+    scopecorr.run(ctx)
 
 
 def search(ctx):
     # something broke (a proof obligation or the correspondence): look for a concrete failing input
     fams = [(p, max(nq * 6, 2000), max(nt, 20000) // 2, kw) for p, nq, nt, kw in FAMILIES]
     machine_prop.run(ctx, fams, MONITORS)
+    scopecorr.search(ctx)
 
 
 def replay(ctx, rp):
+    if rp.get('family') == scopecorr.FAMILY:
+        return scopecorr.replay(ctx, rp)
     return machine_prop.replay(ctx, rp, MONITORS)
 
 
 def shrink(ctx, failure):
+    if failure.family == scopecorr.FAMILY:
+        return scopecorr.shrink(ctx, failure)
     return machine_prop.shrink(ctx, failure, MONITORS)
